@@ -223,3 +223,18 @@ package oci
 //@   entry set wroteTemp = false
 //@ ghost local wroteTemp bool
 //@ ghost local tempName string
+//@
+//@ // ---- tag listing of a layout (C15): exactly the tag references after `last`, sorted
+//@ callback TagsPageCB params tags
+//@   modifies all
+//@ ghost local ltPos(r string) int
+//@ func listTags
+//@   requires [wf] resolverRI(tagResolver) && fn != nil
+//@   callee fn TagsPageCB
+//@   loop 0 invariant [objects] tagMap != nil && alive(tagMap)
+//@   loop 0 invariant [C15:collected-are-tags-after-last] forall i int :: 0 <= i && i < len(tags) ==> tags[i] in $visited && isTagRef(tagMap, tags[i]) && (last == "" || !(tags[i] <= last))
+//@   loop 0 invariant [C15:every-visited-tag-after-last-collected] forall r string :: r in $visited && isTagRef(tagMap, r) && (last == "" || !(r <= last)) ==> 0 <= ltPos(r) && ltPos(r) < len(tags) && tags[ltPos(r)] == r
+//@   loop 0 backedge set ltPos($key) = len(tags)
+//@   call fn requires [C15:only-tags-after-last] forall i int :: 0 <= i && i < len(args.tags) ==> isTagRef(tagMap, args.tags[i]) && (last == "" || !(args.tags[i] <= last))
+//@   call fn requires [C15:every-tag-after-last-listed] forall r string :: isTagRef(tagMap, r) && (last == "" || !(r <= last)) ==> inStrs(args.tags, r)
+//@   call fn requires [C15:sorted] forall i, j int :: 0 <= i && i <= j && j < len(args.tags) ==> args.tags[i] <= args.tags[j]
